@@ -372,7 +372,13 @@ class Machine:
                 pre.append(pe)
             return ('ptr', local, tuple(pre))
         if rv == 'binop':
-            return self.binop(s['op'], self.operand(ops[0]), self.operand(ops[1]))
+            r = self.binop(s['op'], self.operand(ops[0]), self.operand(ops[1]))
+            if s['op'].endswith('WithOverflow') and isinstance(r, tuple) and r and r[0] == 'tuple' and isinstance(r[1][0], int) and not isinstance(r[1][0], Rep):
+                # the overflow flag of checked arithmetic on an unsigned type: a difference below zero
+                tys = [(o.get('copy') or o.get('move') or o.get('const') or {}).get('ty', '') for o in ops]
+                if any(re.fullmatch(r'u(8|16|32|64|128|size)', str(t)) for t in tys) and r[1][0] < 0:
+                    return ('tuple', [r[1][0], 1])
+            return r
         if rv == 'unop':
             a = self.deref_value(self.operand(ops[0]))
             if s['op'] == 'Not':
@@ -496,6 +502,7 @@ class Machine:
                 return 'stop'
             bl = self.b.blocks[cur]
             self.trace.append(cur)
+            self.shared.setdefault('visited', {}).setdefault(self.b.path, set()).add(cur)
             for s in bl['stmts']:
                 if s['k'] == 'assign':
                     self.write(self.k(s['lhs']['local']), s['lhs']['proj'], self.rvalue(s))
@@ -512,7 +519,12 @@ class Machine:
                 if t.get('target', -1) is None or t.get('target', -1) < 0:
                     return 'diverged'
                 cur = t['target']
-            elif k in ('goto', 'drop', 'assert'):
+            elif k == 'assert':
+                c = self.deref_value(self.operand(t['cond'])) if t.get('cond') else None
+                if isinstance(c, int) and c in (0, 1) and bool(c) != bool(t.get('expected')):
+                    raise Unknown('the %s check at bb%d (%s) fails on this walk' % (t.get('akind') or 'assert', cur, t.get('loc') or ''))
+                cur = t['target']
+            elif k in ('goto', 'drop'):
                 cur = t['target']
             elif k == 'switch':
                 v = self.deref_value(self.operand(t['discr']))
